@@ -8,8 +8,8 @@ CONSTANTS
   BlockSize = 2
   Known = @KNOWN@
   Guard = @GUARD@
-  Schema <- SchemaInt
-  IdxDefs <- IdxInt
+  Schema <- SchemaKey
+  IdxDefs <- IdxNone
   SortDefs <- NoDefs
   TrigDefs <- NoDefs
   MaxOps = @MAXOPS@
@@ -20,10 +20,10 @@ CONSTANTS
   AllowFail = @FAIL@
   AllowRollback = @ROLLBACK@
   AllowDelete = TRUE
-  AllowInsert = TRUE
-  Keyed = FALSE
+  AllowInsert = FALSE
+  Keyed = TRUE
   LateInitSel = TRUE
   ReplayAtEnd = @ATEND@
 SYMMETRY WriterSymmetry
-INVARIANTS FillAccounting ReadBack IndexCoherent NoCollision OccupiedIsLive NoStaleValues StreamIds Converged
+INVARIANTS KeyCoherent FillAccounting ReadBack IndexCoherent NoCollision OccupiedIsLive NoStaleValues StreamIds Converged
 PROPERTIES RollbackNoTrace
